@@ -152,7 +152,11 @@ def check_case(case) -> Obs:
             elif op.get("route") and troughs and plates:
                 a, b = troughs[0], plates[0]
                 op["src"], op["dst"] = (a, b) if op["route"] == "t2p" else (b, a)
-        conc = resolve(flu, op)  # Fluent: the stricter notion of "distinct destination positions"
+        # distribute: destination wells with pairwise distinct positions - on the Fluent (the stricter notion: one position
+        # per trough column) or, every other time, only on the EVO (several virtual rows of one trough column)
+        conc = resolve(evo if (kind == "distribute" and k % 2) else flu, op)
+        if kind == "distribute" and k % 2 and len({w[1:] for w in conc["dflat"]}) < len(conc["dflat"]):
+            obs.cls("distribute-into-virtual-rows-of-one-column")
         if kind == "distribute" and not conc["dflat"]:
             continue
         s1 = execute(evo, conc)
